@@ -1,6 +1,7 @@
 package main
 
 import (
+	"github.com/consensys/gnark-crypto/ecc"
 	"encoding/json"
 	"fmt"
 	gotypes "go/types"
@@ -104,7 +105,43 @@ func (c *c19env) exec() *ssax.Exec {
 			ssax.Unsupported("SetString with a symbolic base")
 		}
 		okv := x.Declare(x.Fresh("setstring.ok"), 0)
-		return &ssax.TupleV{E: []ssax.Val{&ssax.Opaque{Tag: fmt.Sprintf("big.SetString/base%d", base.Int()), Args: []ssax.Val{args[1]}}, okv}}
+		num := &ssax.Opaque{Tag: fmt.Sprintf("big.SetString/base%d", base.Int()), Args: []ssax.Val{args[1]}}
+		// the receiver keeps the number (later in-place operations such as Mod act on it); the returned
+		// pointer is the receiver - or nil for a malformed numeral, which the opaque number stands for as well
+		if p, ok := args[0].(*ssax.PtrV); ok && !p.IsNil() {
+			x.Store(p, num)
+			return &ssax.TupleV{E: []ssax.Val{p, okv}}
+		}
+		return &ssax.TupleV{E: []ssax.Val{num, okv}}
+	}
+	// the two BN254 moduli are named constants; reduction modulo the scalar field leaves the residue the
+	// property speaks of unchanged, any other reduction is a different number
+	for _, n := range []string{"BaseField", "ScalarField"} {
+		n := n
+		x.Stubs["(github.com/consensys/gnark-crypto/ecc.ID)."+n] = func(x *ssax.Exec, args []ssax.Val, call *ssa.CallCommon) ssax.Val {
+			return &ssax.Opaque{Tag: "ecc." + n, Args: []ssax.Val{args[0]}}
+		}
+	}
+	x.Stubs["(*math/big.Int).Mod"] = func(x *ssax.Exec, args []ssax.Val, call *ssa.CallCommon) ssax.Val {
+		content := func(v ssax.Val) ssax.Val {
+			if p, ok := v.(*ssax.PtrV); ok && !p.IsNil() {
+				return x.Load(p)
+			}
+			return v
+		}
+		z, ok := args[0].(*ssax.PtrV)
+		if !ok || z.IsNil() {
+			ssax.Unsupported("big.Int.Mod on a receiver that is not a tracked pointer")
+		}
+		a, m := content(args[1]), content(args[2])
+		if o, ok := m.(*ssax.Opaque); ok && o.Tag == "ecc.ScalarField" {
+			if id, ok := o.Args[0].(*ssax.Term); ok && id.Conc() && id.Int() == int(ecc.BN254) {
+				x.Store(z, a)
+				return z
+			}
+		}
+		x.Store(z, &ssax.Opaque{Tag: "big.Mod", Args: []ssax.Val{a, m}})
+		return z
 	}
 	return x
 }
@@ -640,7 +677,7 @@ func refCommon(raw types.CommonCircuitDataRaw) string {
 // the other styles are numerals that only a wrong base / a laxer parser would accept or read differently).
 var fillStyle = "decimal"
 
-var fillStyles = []string{"decimal", "leading-zero", "hex", "underscore", "hexdigits"}
+var fillStyles = []string{"decimal", "leading-zero", "hex", "underscore", "hexdigits", "huge", "negative"}
 
 // c19Replays: concrete differential runs by function name (real function vs reference on the same input).
 var c19Replays = map[string]func(m map[string]*big.Int) (string, string){
@@ -764,6 +801,12 @@ func fill(v reflect.Value, path string, m map[string]*big.Int) {
 			d = d[:3] + "_" + d[3:9]
 		case "hexdigits":
 			d = d[:6] + "a"
+		case "huge":
+			// a numeral above both BN254 moduli: only its residue modulo the scalar field counts
+			b, _ := new(big.Int).SetString(d, 10)
+			d = b.Add(b, new(big.Int).Lsh(big.NewInt(1), 254)).String()
+		case "negative":
+			d = "-" + d
 		}
 		v.SetString(d)
 	case reflect.Struct:
@@ -805,7 +848,7 @@ func canon(x any) string {
 					if b == nil {
 						sb.WriteString("nil")
 					} else {
-						sb.WriteString(b.String())
+						sb.WriteString(new(big.Int).Mod(b, R).String())
 					}
 					return
 				}
@@ -814,7 +857,7 @@ func canon(x any) string {
 		case reflect.Struct:
 			if v.CanInterface() {
 				if b, ok := v.Interface().(big.Int); ok {
-					sb.WriteString(b.String())
+					sb.WriteString(new(big.Int).Mod(&b, R).String())
 					return
 				}
 			}
